@@ -52,8 +52,9 @@ class _IMTLGWeighting(_Weighting):
         except RuntimeError:  # This can happen when the matrix has extremely large values
             v = torch.ones(matrix.shape[0], device=matrix.device, dtype=matrix.dtype)
 
+        # When the sum is zero, it is computed up to rounding errors, whose size depends on the dtype.
         v_sum = v.sum()
-        if v_sum.abs() < 1e-12:
+        if v_sum.abs() < max(1e-12, 100 * torch.finfo(v.dtype).eps):
             weights = torch.zeros_like(v)
         else:
             weights = v / v_sum
